@@ -611,7 +611,7 @@ func raceKey(blk string) string {
 			ln = strings.TrimSpace(ln)
 			if strings.HasPrefix(ln, "github.com/bolkedebruin/rdpgw/") {
 				fn := ln
-				if i := strings.Index(fn, "("); i > 0 {
+				if i := strings.LastIndex(fn, "("); i > 0 {
 					fn = fn[:i]
 				}
 				top = strings.TrimPrefix(fn, "github.com/bolkedebruin/rdpgw/")
@@ -623,7 +623,7 @@ func raceKey(blk string) string {
 			for _, ln := range strings.Split(stack, "\n") {
 				ln = strings.TrimSpace(ln)
 				if ln != "" && !strings.HasPrefix(ln, "/") {
-					if i := strings.Index(ln, "("); i > 0 {
+					if i := strings.LastIndex(ln, "("); i > 0 {
 						ln = ln[:i]
 					}
 					top = ln
